@@ -362,6 +362,15 @@ func mangleStrA(in string, joliet bool) stringA {
 	return stringA(ret)
 }
 
+// truncate cuts the string to fit a fixed-size descriptor field.
+func (s stringD) truncate(maxLen int) stringD {
+	if len(s) > maxLen {
+		return s[:maxLen]
+	}
+
+	return s
+}
+
 func mangleStrD(in string, joliet bool) stringD {
 	ret := strings.Map(func(r rune) rune {
 		for _, i := range dCharacters {
